@@ -569,7 +569,10 @@ def explore(ctx, factor, bs):
     # mismatch of C01 (reported with the form)
     from props import e2e
 
-    e2e.e2e_corr(ctx, ctx.pick(300, 3000) * (1 if factor == 1 else 2), big=big)
+    if os.environ.get("C01_SKIP_E2E"):   # diagnosis only: isolate the C01 streams from the shared end-to-end stream
+        ctx.count("e2e:skipped-by-C01_SKIP_E2E")
+    else:
+        e2e.e2e_corr(ctx, ctx.pick(300, 3000) * (1 if factor == 1 else 2), big=big)
     tot = ctx.dist.get("model:answered", 0) + ctx.dist.get("model:unsupported", 0)
     ctx.notes["fragment_share"] = {"answered": ctx.dist.get("model:answered", 0), "unsupported": ctx.dist.get("model:unsupported", 0),
                                    "share": round(ctx.dist.get("model:answered", 0) / tot, 4) if tot else None}
